@@ -12,6 +12,9 @@ def main(tier, replay=None):
         dict(name="outcomes-l1r1", opts=[M, "msgs=l1r1"], bounds="0,0,0,%d" % (2 if q else 3), total=3),
         dict(name="outcomes-l3-saturated", opts=[M, "msgs=l6", "concl=2", "announce=2", "signals=0"], bounds="0,0,0,%d" % (1 if q else 2), total=2),
         dict(name="outcomes-senders", opts=[M, "msgs=verp+empty+dbl", "signals=0"], bounds="0,0,0,%d" % (2 if q else 3), total=3),
+        dict(name="lost-spawner-l1r1", opts=[M, "msgs=l1r1", "signals=0", "verdicts=KZDE", "reorder=2"], bounds="0,0,0,%d" % (2 if q else 3), total=3),
+        dict(name="lost-spawner-l2-r2", opts=[M, "msgs=l2+r2", "signals=0", "verdicts=KDE", "reorder=2"], bounds="0,0,0,2", total=2, tier="thorough"),
+        dict(name="stray-and-mangled-reports-l1r1", opts=[M, "msgs=l1r1", "signals=0", "verdicts=KZDghueOQ", "reorder=2"], bounds="0,0,0,%d" % (2 if q else 3), total=3),
         dict(name="crash-l1r1", opts=[M, "msgs=l1r1"], bounds="0,0,1,1", total=2),
         dict(name="crash-l2-bounces", opts=[M, "msgs=l2", "signals=0"], bounds="0,0,1,2", total=3 if not q else 2, deadline=900),
         dict(name="faults-l1r1", opts=[M, "msgs=l1r1", "signals=0"], bounds="0,1,0,1", total=2),
@@ -22,11 +25,11 @@ def main(tier, replay=None):
     res.rule = ("each execution is a complete history of the real qmail-send + qmail-clean (+ qmail-queue for injections and bounces) under the "
                 "virtual kernel with controller-scripted spawners and a virtual clock, run until the queue is empty with every unscripted "
                 "attempt answered success; deviations from that default are enumerated exhaustively up to the bound: which in-flight delivery "
-                "is answered and with K/Z/D/garbled, TERM/ALRM/HUP at quiescent points (env), machine crash with every keep/lose pattern or "
+                "is answered and with K/Z/D/garbled/stray/mangled/oversized reports or the death of its spawner, TERM/ALRM/HUP at quiescent points (env), machine crash with every keep/lose pattern or "
                 "kill of qmail-send before every filesystem-mutating call of qmail-send/qmail-clean (crash), one failing call (fault); "
                 "monitors: a D mark only after a K/D report, recipient lists removed only when all done, info removed only when every "
                 "recipient was delivered or named in a queued bounce, queue drains; states = distinct (history, final queue tree)")
     res.assumptions = ["virtual kernel (appendix A), crash model of conf-qmail", "bounce/N is documented as not crash-proof: recipients whose only missing artefact after lost data is their bounce paragraph are exempt",
                        "duplicate delivery after a crash is allowed"]
-    res.require_nonzero("evaluations", "messages_finished", "bounces_queued", "reports_Z", "reports_D", "reports_garbage", "machine_crashes", "daemon_kills", "marks_written", "faults_injected")
+    res.require_nonzero("evaluations", "messages_finished", "bounces_queued", "reports_Z", "reports_D", "reports_garbage", "reports_stray", "spawner_lost", "machine_crashes", "daemon_kills", "marks_written", "faults_injected")
     return res.finish()
